@@ -62,6 +62,68 @@ def reserved_list(f, crate):
     return c, out
 
 
+def rule_struct_member_names(chk):
+    """Struct members are emitted under their source names (no name map stands between them), and a derived struct is
+    emitted flattened with its base's members: the type checker's duplicate check is all that keeps two members of one
+    emitted struct apart. parse_struct_internal is read on model definitions - own duplicates, a member named like an
+    inherited one, plain inheritance, several declarators: a struct is accepted exactly when all the names it ends up
+    with are distinct, and then holds the inherited members followed by its own."""
+    import interp as I
+    f = chk.facts
+    fn = f.fn("parse_struct_internal", "rssl_typer")
+    if not fn:
+        chk.note("C15.struct-members: parse_struct_internal not found; not decided")
+        return
+    ok = lambda v: I.Enum("Result", "Ok", {"0": v})
+    opt = lambda v: I.Enum("Option", "None") if v is None else I.Enum("Option", "Some", {"0": v})
+    loc = lambda v: I.Enum("Located", None, {"node": v, "location": I.Opaque("location")})
+    tid = lambda n_: I.Enum("TypeId", None, {"0": n_})
+    mods = lambda: I.Enum("TypeModifierSet", None, {"modifiers": []})
+    ty = lambda tag: I.Enum("Type", None, {"layout": I.Opaque("layout"), "modifiers": mods(), "location": I.Opaque("location"), "tag": tag})
+
+    def deref(v):
+        return v.get() if isinstance(v, I.Ref) else v
+
+    def member(*names):
+        return I.Enum("StructEntry", "Variable", {"0": I.Enum("StructMember", None, {"ty": ty("float"), "attributes": [], "defs": [
+            I.Enum("InitDeclarator", None, {"declarator": I.Enum("Declarator", "Tagged", {"name": n_}), "location_annotations": [], "init": opt(None)}) for n_ in names]})})
+    sm = lambda n_: I.Enum("StructMember", None, {"name": n_, "type_id": tid(3), "semantic": opt(None), "interpolation_modifier": opt(None), "precise": False})
+    cases = {"inherits-and-adds": (True, [member("y")], ["x", "w", "y"]), "redeclares-inherited": (True, [member("x")], None), "redeclares-second-inherited": (True, [member("y"), member("w")], None),
+             "own-duplicate": (False, [member("a"), member("a")], None), "own-duplicate-in-one-declaration": (False, [member("a", "a")], None), "several-declarators": (False, [member("a", "b"), member("c")], ["a", "b", "c"]),
+             "only-inherited": (True, [], ["x", "w"]), "plain": (False, [member("a")], ["a"])}
+    n = 0
+    for cname, (derived, entries, want) in cases.items():
+        base = I.Enum("StructDefinition", None, {"id": I.Enum("StructId", None, {"0": 0}), "type_id": tid(50), "name": loc("B"), "namespace": opt(None), "members": [sm("x"), sm("w")], "methods": []})
+        own = I.Enum("StructDefinition", None, {"id": I.Enum("StructId", None, {"0": 1}), "type_id": tid(51), "name": loc("D"), "namespace": opt(None), "members": [], "methods": []})
+        ctx = I.Enum("Context", None, {"module": I.Enum("Module", None, {"struct_registry": [base, own], "type_registry": I.Opaque("type registry"), "function_registry": I.Opaque("function registry")})})
+        sd = I.Enum("StructDefinition", None, {"name": loc("D"), "base_types": [ty("B")] if derived else [], "template_params": I.Enum("TemplateParamList", None, {"0": []}), "members": list(entries)})
+        ext = {"Context::begin_struct": lambda a: ok(I.Enum("StructId", None, {"0": 1})), "begin_struct": lambda a: ok(I.Enum("StructId", None, {"0": 1})),
+               "parse_type_for_usage": lambda a: ok(tid(50 if deref(a[0]).fields.get("tag") == "B" else 3)),
+               "TypeRegistry::get_type_layer": lambda a: I.Enum("TypeLayer", "Struct", {"0": I.Enum("StructId", None, {"0": 0})}) if deref(a[1]).fields["0"] == 50 else I.Enum("TypeLayer", "Scalar", {"0": I.Enum("ScalarType", "Float32")}),
+               "push_scope_with_name": lambda a: 0, "revisit_scope": lambda a: (), "pop_scope": lambda a: (), "TypeRegistry::is_void": lambda a: False,
+               "parse_interpolation_modifier": lambda a: ok(opt(None)), "parse_precise": lambda a: ok(opt(None)), "to_error_type": lambda a: I.Opaque("error type"),
+               "parse_declarator": lambda a: ok((tid(3), I.Enum("ScopedIdentifier", None, {"base": I.Enum("ScopedIdentifierBase", "Relative"), "identifiers": [loc(deref(a[0]).fields["name"])]})))}
+        key = "C15.struct-members/" + cname
+        try:
+            r = I.Interp(f, max_depth=8, extern=ext).apply(fn, [sd, opt(None), ctx])
+        except I.Unknown as e:
+            if "panicking" in str(e):
+                chk.ob(key, False, "parse_struct_internal aborts on the model struct `%s` (%s)" % (cname, str(e)[:60]), where(fn))
+            else:
+                chk.unreadable(key, "parse_struct_internal on a model struct definition", str(e)[:100], where(fn))
+            continue
+        n += 1
+        accepted = isinstance(r, I.Enum) and r.variant == "Ok"
+        names = [m.fields.get("name") for m in own.fields["members"]] if accepted else None
+        shown = "struct D%s { %s }" % (" : B" if derived else "", " ".join("float %s;" % ", ".join(d_.fields["declarator"].fields["name"] for d_ in e_.fields["0"].fields["defs"]) for e_ in entries))
+        if want is None:
+            bad = None if not accepted else "`%s` (B has members x, w) is accepted with members %s: the emitted struct declares one name twice" % (shown, names)
+        else:
+            bad = None if accepted and names == want else ("`%s` (B has members x, w) is refused" % shown if not accepted else "`%s` (B has members x, w) ends up with members %s, must be %s" % (shown, names, want))
+        chk.ob(key, bad is None, bad or ("refused: a name would be declared twice" if want is None else "members %s" % want), where(fn), sample={"case": cname})
+    chk.floor("C15.floor/struct-definitions", n, 6, "model struct definitions evaluated", where(fn))
+
+
 def run(chk):
     f = chk.facts
     res = {}
@@ -87,6 +149,7 @@ def run(chk):
     rule_qualified_eval(chk)
     rule_raw_names(chk)
     rule_leaf_identifiers(chk)
+    rule_struct_member_names(chk)
 
 
 def rule_builtins(chk, res):
